@@ -196,6 +196,36 @@ func cmdCheck(args []string) int {
 		}
 	}()
 
+	// a trusted postcondition (assume_ensures) of a verified function acts as a ghost assignment:
+	// every ghost it mentions must be in the function's modifies, otherwise the clause would
+	// constrain program values through a ghost the callers still hold the old value of
+	for _, k := range prog.cs.Order {
+		ct := prog.cs.Funcs[k]
+		if ct.Assumed {
+			continue
+		}
+		for _, cl := range ct.Ensures {
+			if !cl.Free {
+				continue
+			}
+			for gname := range prog.cs.Ghosts {
+				if !regexp.MustCompile(`(^|[^A-Za-z0-9_.])` + regexp.QuoteMeta(gname) + `($|[^A-Za-z0-9_])`).MatchString(cl.Text) {
+					continue
+				}
+				ok := false
+				for _, m := range ct.Modifies {
+					if m == "ghost."+gname || (m == "ghost.iteration" && (strings.HasPrefix(gname, "rec_") || strings.HasPrefix(gname, "it_"))) {
+						ok = true
+					}
+				}
+				if !ok {
+					fmt.Printf("TOOL-ERROR: %s: assume_ensures %q mentions ghost %s, which is not in the function's modifies\n", k, cl.Text, gname)
+					return 2
+				}
+			}
+		}
+	}
+
 	// functions under contract for this property
 	var keys []string
 	for _, k := range prog.cs.Order {
